@@ -81,6 +81,10 @@ pub fn gen_misc(r: &mut Rng, tier: &str, emit: &mut dyn FnMut(String)) {
             emit(format!("gaddr mmio {} {}", ts, r.scalar(64)));
         }
     }
+    // GAS::new_pci_config: every (device, function) pair, registers at the edges
+    for dev in 0..32u64 { for fun in 0..8u64 { for reg in [0u64, 0x40, 0xfff, 0xffff] {
+        emit(format!("gaspci 32 3 {} {} {}", dev, fun, reg));
+    } } }
     emit("lens".to_string());
     for st in ["ABCD", "\\ABCD", "_SB_.PCI0", "\\_SB_.PCI0.A___", "A.B", "", "ABCDE", "\\", "_SB_.PCI0.LNKA.X___.Y___"] {
         emit(format!("pathfrom {}", if st.is_empty() { "-".to_string() } else { hex(st.as_bytes()) }));
